@@ -177,16 +177,39 @@ func (w *Adv) Deliver(route string, from *sim.Instance, heads []*entry.Entry) er
 	return nil
 }
 
-// VictimHas reports whether the victim's log holds the entry.
+// victimEntries is everything the victim's log exposes: its entry map, its ordered listing and its heads
+// (the dependency's join can adopt heads whose entries it filtered out).
+func (w *Adv) victimEntries() map[string]ipfslog.Entry {
+	m := map[string]ipfslog.Entry{}
+	log := w.SV.OpLog()
+	for _, e := range log.GetEntries().Slice() {
+		m[e.GetHash().String()] = e
+	}
+	for _, e := range log.Values().Slice() {
+		m[e.GetHash().String()] = e
+	}
+	for _, e := range log.Heads().Slice() {
+		m[e.GetHash().String()] = e
+	}
+	return m
+}
+
+// VictimHas reports whether the victim's log exposes the entry in any way.
 func (w *Adv) VictimHas(c cid.Cid) bool {
-	_, ok := w.SV.OpLog().Get(c)
+	_, ok := w.victimEntries()[c.String()]
 	return ok
+}
+
+// VictimEntry returns the victim's copy of the entry with that address.
+func (w *Adv) VictimEntry(c cid.Cid) (ipfslog.Entry, bool) {
+	e, ok := w.victimEntries()[c.String()]
+	return e, ok
 }
 
 // VictimSet lists the victim's entries by name.
 func (w *Adv) VictimSet() []string {
 	var out []string
-	for _, e := range w.SV.OpLog().GetEntries().Slice() {
+	for _, e := range w.victimEntries() {
 		out = append(out, w.Name(e.GetHash()))
 	}
 	sort.Strings(out)
